@@ -326,7 +326,8 @@ PartitionSpec == <<
                L(<<D(<<<<"cpu", S("1%")>>, <<"trait", S("x86")>>>>)>>)>>),
   F("memory", <<S("3G"), S("0G")>>),
   F("reboot-schedule", <<S("sat,sun/10:30:00"), S("")>>),
-  F("systems", <<L(<<I(1), I(22)>>), L(<<>>), L(<<I(0)>>), N0>>)
+  F("systems", <<L(<<I(1), I(22)>>), L(<<>>), L(<<I(0)>>), N0,
+                 L(<<I(7), I(7)>>), L(<<I(22), I(1), I(22)>>)>>)
 >>
 
 Asg(p, pr) == D(<<<<"pattern", S(p)>>, <<"priority", I(pr)>>>>)
@@ -342,14 +343,17 @@ CellAllocSpec == <<
   F("partition", <<S("p1"), S("_default"), N0>>),
   F("rank", <<I(100), I(0)>>),
   F("rank_adjustment", <<I(10), I(0)>>),
-  F("traits", <<L(<<S("gpu"), S("ssd")>>), L(<<>>), L(<<S("x")>>), N0>>)
+  F("traits", <<L(<<S("gpu"), S("ssd")>>), L(<<>>), L(<<S("x")>>), N0,
+                L(<<S("x"), S("x")>>), L(<<S("ssd"), S("gpu"), S("ssd")>>)>>)
 >>
 
 Svc(n, extra) == D(<<<<"command", S("/bin/" \o n)>>, <<"name", S(n)>>>> \o extra)
 AppSpec == <<
   F("_id", <<S("proid.app")>>),
-  F("affinity_limits", <<D(<<<<"server", I(1)>>>>), D(<<>>), D(<<<<"rack", I(2)>>, <<"server", I(1)>>>>)>>),
-  F("args", <<L(<<S("--flag"), S("a b")>>), L(<<>>)>>),
+  F("affinity_limits", <<D(<<<<"server", I(1)>>>>), D(<<>>), D(<<<<"rack", I(2)>>, <<"server", I(1)>>>>),
+                         D(<<<<"pod", I(1)>>, <<"rack", I(1)>>, <<"server", I(1)>>>>)>>),
+  F("args", <<L(<<S("--flag"), S("a b")>>), L(<<>>), L(<<S("-v"), S("-v")>>),
+              L(<<S("--retries"), S("3"), S("--workers"), S("3")>>), L(<<S("z"), S("a"), S("m")>>)>>),
   F("command", <<S("/bin/sleep 5")>>),
   F("cpu", <<S("10%")>>),
   F("data_retention_timeout", <<S("1d")>>),
@@ -358,15 +362,16 @@ AppSpec == <<
                   L(<<D(<<<<"name", S("ssh")>>, <<"port", I(0)>>, <<"proto", S("tcp")>>, <<"type", S("infra")>>>>),
                       D(<<<<"name", S("dns")>>, <<"port", I(53)>>, <<"proto", S("udp")>>>>)>>)>>),
   F("environ", <<L(<<D(<<<<"name", S("A")>>, <<"value", S("1")>>>>)>>), L(<<>>),
-                L(<<D(<<<<"name", S("B")>>, <<"value", S("x=y, z")>>>>), D(<<<<"name", S("A")>>, <<"value", S("")>>>>)>>)>>),
+                L(<<D(<<<<"name", S("B")>>, <<"value", S("x=y, z")>>>>), D(<<<<"name", S("A")>>, <<"value", S("")>>>>)>>),
+                L(<<D(<<<<"name", S("A")>>, <<"value", S("1")>>>>), D(<<<<"name", S("A")>>, <<"value", S("1")>>>>)>>)>>),
   F("ephemeral_ports", <<D(<<<<"tcp", I(2)>>, <<"udp", I(1)>>>>), D(<<>>), D(<<<<"tcp", I(1)>>>>)>>),
-  F("features", <<L(<<S("docker")>>), L(<<>>)>>),
+  F("features", <<L(<<S("docker")>>), L(<<>>), L(<<S("x-y"), S("docker"), S("x-y")>>)>>),
   F("identity_group", <<S("proid.ig")>>),
   F("image", <<S("docker://img:1")>>),
-  F("keytabs", <<L(<<S("host/x@R")>>)>>),
+  F("keytabs", <<L(<<S("host/x@R")>>), L(<<S("host/x@R"), S("host/x@R")>>), L(<<S("z/y@R"), S("a/b@R")>>)>>),
   F("lease", <<S("1h")>>),
   F("memory", <<S("100M")>>),
-  F("passthrough", <<L(<<S("10.0.0.1"), S("host.x")>>), L(<<>>)>>),
+  F("passthrough", <<L(<<S("10.0.0.1"), S("host.x")>>), L(<<>>), L(<<S("host.x"), S("10.0.0.1"), S("host.x")>>)>>),
   F("schedule_once", <<B(TRUE), B(FALSE)>>),
   F("services", <<L(<<Svc("web", <<>>)>>), L(<<>>),
                  L(<<Svc("web", <<<<"restart", D(<<<<"interval", I(30)>>, <<"limit", I(0)>>>>)>>>>),
@@ -374,12 +379,15 @@ AppSpec == <<
                  L(<<D(<<<<"image", S("img")>>, <<"name", S("d")>>, <<"useshell", B(TRUE)>>>>)>>)>>),
   F("shared_ip", <<B(TRUE), B(FALSE)>>),
   F("shared_network", <<B(FALSE), B(TRUE)>>),
-  F("tickets", <<L(<<S("u@REALM")>>), L(<<>>)>>),
-  F("traits", <<L(<<S("gpu")>>), L(<<>>)>>),
+  F("tickets", <<L(<<S("u@REALM")>>), L(<<>>), L(<<S("u@REALM"), S("u@REALM")>>), L(<<S("v@R"), S("a@R")>>)>>),
+  F("traits", <<L(<<S("gpu")>>), L(<<>>), L(<<S("ssd"), S("gpu"), S("ssd")>>)>>),
   F("vring", <<D(<<<<"cells", L(<<S("c1"), S("c2")>>)>>,
                   <<"rules", L(<<D(<<<<"endpoints", L(<<S("http"), S("ssh")>>)>>, <<"pattern", S("proid.*")>>>>)>>)>>>>),
               D(<<<<"cells", L(<<>>)>>, <<"rules", L(<<>>)>>>>),
-              D(<<<<"cells", L(<<S("c1")>>)>>, <<"rules", L(<<>>)>>>>)>>)
+              D(<<<<"cells", L(<<S("c1")>>)>>, <<"rules", L(<<>>)>>>>),
+              D(<<<<"cells", L(<<S("c2"), S("c1"), S("c2")>>)>>,
+                  <<"rules", L(<<D(<<<<"endpoints", L(<<S("http"), S("http")>>)>>, <<"pattern", S("proid.x.*")>>>>),
+                               D(<<<<"endpoints", L(<<S("ssh"), S("http"), S("ssh")>>)>>, <<"pattern", S("proid.a*")>>>>)>>)>>>>)>>)
 >>
 
 LdapDomain ==
@@ -469,6 +477,45 @@ ModelNormal(v) == ModelFromEntry(v.schema, ModelToEntry(v))
 ModelLdapDomain == {v \in LdapDomain : v.schema \in {"partition", "cellalloc"}}
 
 -----------------------------------------------------------------------------
+(* LOSSLESS lists.  The normal form may re-order a list and add defaults,   *)
+(* it must not LOSE an element: every non-empty list an object is written   *)
+(* with (at any depth; paths go through dictionary keys, the elements of a  *)
+(* list of dictionaries share one path) comes back with the same length,    *)
+(* and a list of atoms with the same elements as a multiset.  No list-typed *)
+(* attribute is exempt: the JSON schemas have no uniqueItems and            *)
+(* _dict_2_entry / _entry_2_dict copy lists element by element              *)
+(* (admin/_ldap.py:139-151, 97-102); set semantics exist only in            *)
+(* _diff_attribute_values (:397), which decides whether update() touches    *)
+(* an attribute, not what is stored.                                        *)
+
+IsAtom(t) == t[1] \in {"s", "i", "b", "n", "f"}
+BagOf(xs) == {<<xs[i], Cardinality({j \in DOMAIN xs : xs[j] = xs[i]})>> : i \in DOMAIN xs}
+
+RECURSIVE ListSigs(_, _)
+ListSigs(t, path) ==
+  IF t[1] = "d"
+  THEN LET ps == t[2]
+           RECURSIVE go(_)
+           go(i) == IF i > Len(ps) THEN <<>>
+                    ELSE ListSigs(ps[i][2], Append(path, ps[i][1])) \o go(i + 1)
+       IN go(1)
+  ELSE IF t[1] = "l" /\ t[2] # <<>>
+  THEN LET xs == t[2]
+           own == IF \A i \in DOMAIN xs : IsAtom(xs[i])
+                  THEN <<<<path, "atoms", BagOf(xs)>>>>
+                  ELSE <<<<path, "len", Len(xs)>>>>
+           RECURSIVE go(_)
+           go(i) == IF i > Len(xs) THEN <<>> ELSE ListSigs(xs[i], path) \o go(i + 1)
+       IN own \o go(1)
+  ELSE <<>>
+
+CountIn(e, sq) == Cardinality({i \in DOMAIN sq : sq[i] = e})
+Lossless(x, n) ==
+  LET sx == ListSigs(x, <<>>)
+      sn == ListSigs(n, <<>>)
+  IN \A i \in DOMAIN sx : CountIn(sx[i], sx) <= CountIn(sx[i], sn)
+
+-----------------------------------------------------------------------------
 (* the formats together                                                     *)
 
 NameFormats == {"rule", "uniq", "uid", "event"}
@@ -516,6 +563,8 @@ InvInjective ==
     THEN LET NF == {ModelNormal(v) : v \in ModelLdapDomain}
          IN Cardinality({<<n.schema, ModelToEntry(n)>> : n \in NF}) = Cardinality(NF)
     ELSE Cardinality({Enc(fmt, v) : v \in Domain(fmt)}) = Cardinality({Ident(fmt, v) : v \in Domain(fmt)})
+
+InvLossless == fmt = "ldapmodel" => Lossless(ValueAt.obj, ModelNormal(ValueAt).obj)
 
 InvIdLen ==
   /\ fmt = "uniq" => Len(IdOfUnique(Enc(fmt, ValueAt))) = 13
